@@ -49,7 +49,16 @@ MANIFEST = dict(
           "through the default step, the default registry the SAME symbol with the SAME definition (equal rows in two registries). "
           "The violations this property is about are aliasing of dicts "
           "and memo keys that forget the registry, i.e. discrete facts: the interleavings are enumerated, the solver's share is that "
-          "digests are compared as terms (a write or a memo hit that stores a different symbol is seen even where a test would store an equal number)."),
+          "digests are compared as terms (a write or a memo hit that stores a different symbol is seen even where a test would store an equal number). "
+          "SHARED UNIT OBJECTS (family C13/rebind): every call that takes data or a Unit bound to one registry together with registry=A or a Unit of A "
+          "(unyt_array of a list / tuple / mixed-unit list of quantities with registry= by keyword and positionally, unyt_array(array, registry=A), "
+          "unyt_array(array, unit, registry=A), unyt_quantity(q, registry=A), unyt_array/unyt_quantity(data, unit_object, registry=A), Unit(unit_object, registry=A), "
+          "to / convert_to_units with a Unit of A, products with Units of A, ufuncs, +, +=, uconcatenate, uhstack, ucross(registry=A), slice assignment of a "
+          "list of quantities, the bypass_validation forms) x the Unit object handed over (unyt.km, unyt.g, unyt.s, unyt.dimensionless, the .units of live "
+          "arrays of the default registry and of another custom registry B in a stock symbol and in B's own symbol with a symbolic scale): z3 decides for all "
+          "payloads and scales that after the call and again after A redefines base symbols with symbolic scales the shared Unit object is still bound to its "
+          "registry with its definition, the live quantities still carry it and convert as before, all watched namespace units are bound to the default "
+          "registry, namespace digest and the tables of default and B are unchanged, and the new object is bound to A."),
     design="DESIGN.md section 4 C13",
     technique="explicit-state bounded model checking over interleavings, symbolic (z3 real) scales, digest-invariance and own-table obligations; counterexample replay on plain unyt")
 EXPLANATION = (
@@ -74,10 +83,14 @@ EXPLANATION = (
     "full (own-table) too. (6) restore is a function of its source: for every route of step derive and every copy route at setup, rows(restored) == "
     "rows(source) in both directions (derived prefixed rows tolerated) + six raw lookups answered as the SOURCE's table says; the restored registry is "
     "then edited before the next route. The default step defines xqq on the default registry: with a symbolic scale, or - where a registry of the "
-    "world already holds xqq (configuration collide) - with that registry's very definition."
+    "world already holds xqq (configuration collide) - with that registry's very definition. (7) shared Unit objects (C13/rebind): a call that builds something for "
+    "registry A from data/units of registry S leaves the Unit object it was handed bound to S with base_value/base_offset equal as terms, conversions of the live "
+    "quantities = payload * S's scale for all payloads and all scales later written to A, the result bound to A where registry= is given (unyt_array(array, "
+    "unit_object, registry=A) keeps the handed Unit's registry on the unchanged library: no demand there). Recorded finding: the bypass_validation=True forms "
+    "rebind the handed Unit object in place."
 )
 BOUNDS = {
-    "quick": "22 lut=-by-reference configurations (11 donors x add_default_symbols) next to an independent registry: every single operation (length 1), ALL "
+    "quick": "C13/rebind: 29 calls x 7 shared-unit carriers, one call + two edits of the receiving registry each (same in thorough). 22 lut=-by-reference configurations (11 donors x add_default_symbols) next to an independent registry: every single operation (length 1), ALL "
              "interleavings of length <= 2 for two of them; 6 collide configurations (pickle, JSON, deepcopy, pickle tuple, pickle Unit+quantity, JSON twice; 12-operation "
              "alphabet incl. derive@B), ALL interleavings of length <= 2; step derive applies 4 copy routes (+ 5-8 JSON/pickle routes where the registry is serialisable); "
              "pristine-registry and new-registry table comparison after every step of every case. Further: 8 configurations whose source is the DEFAULT registry (deepcopy tuple / units / quantity+array, Unit.copy(deep) twice, pickle tuple / Unit+array, JSON twice, "
@@ -1034,6 +1047,115 @@ def make_foreign_case(left):
     c.warm_target = False
     return c
 
+# ------------------------------------------------------------------------------------ shared Unit objects keep their registry
+#
+# Calls that take data/units bound to ONE registry together with `registry=` (or a Unit) of ANOTHER one. The Unit object the call is
+# handed may be shared: it is the object exported as unyt.km, or the .units of arrays that are still alive. Whatever the call builds
+# for registry A, that shared object must stay bound to the registry it came from and keep its definition.
+
+REBIND_CARRIERS = {
+    # name: (how the shared Unit object is obtained, symbol of its registry that converts it, dimension base symbol)
+    "ns_km": ("ns", "km", "m", 1000.0), "ns_g": ("ns", "g", "kg", 0.001), "ns_s": ("ns", "s", "s", 1.0),
+    "ns_dimensionless": ("ns", "dimensionless", "dimensionless", 1.0),
+    "live_default_km": ("live_default", "km", "m", 1000.0), "live_B_km": ("live_B", "km", "m", 1000.0), "live_B_foo": ("live_B", FOO, "m", None),
+}
+REBIND_STEPS = ["list", "tuple", "list_positional", "list_converted", "list_bare_first", "arr", "arr_unit", "qty", "qty_from_arr0", "data_unit", "qty_unit",
+                "data_unit_positional", "unit_unit", "unit_unit_positional", "to_unitA", "convert_to_unitA", "mul_unitA", "unitA_mul_unit", "ufunc_mul", "ufunc_mul_unit",
+                "np_multiply", "add", "iadd", "uconcatenate", "uhstack", "setitem", "ucross", "data_unit_bypass", "qty_unit_bypass"]
+
+
+def make_rebind_case(stepname, carrier):
+    how, sym, base, factor = REBIND_CARRIERS[carrier]
+
+    def h(ctx):
+        clear_caches(ctx.mods)
+        unyt, UR, D = ctx.mods["unyt"], ctx.mods["UR"], ctx.mods["unyt"].dimensions
+        np_ = __import__("numpy")
+        ua, uq, Unit, DEF = unyt.unyt_array, unyt.unyt_quantity, unyt.Unit, UR.default_unit_registry
+        A, B = UR.UnitRegistry(), UR.UnitRegistry()
+        sB = ctx.real("sB", pos=True)
+        B.add(FOO, sB, D.length, prefixable=True)
+        S = B if how == "live_B" else DEF
+        fac = sB if factor is None else factor
+        x, y = ctx.real("x", nonzero=True), ctx.real("y", nonzero=True)
+        z = ctx.reals("z", (2,), nonzero=True)
+        if how == "ns":
+            U = getattr(unyt, sym)
+        else:
+            U = ctx.quantity(ctx.reals("w", (2,)), sym, S).units  # the unit object of an array that stays alive
+        q1, q2, arrS = ctx.quantity(x, U), ctx.quantity(y, U), ctx.quantity(z, U)
+        live = [q1, q2, arrS]
+        ctx.assume(all(o.units is U for o in live) and U.registry is S)
+        lenA = base if base != "dimensionless" else "dimensionless"
+        arrA = ctx.quantity(ctx.reals("a", (2,), nonzero=True), "s", A)         # A-bound, other dimension
+        arrAl = ctx.quantity(ctx.reals("b", (2,), nonzero=True), lenA, A)       # A-bound, same dimension as the shared unit
+        ns0 = ns_digest(unyt)
+        tabs0 = dict(DEF.lut), dict(B.lut)
+        bv0, bo0 = U.base_value, U.base_offset
+
+        def raw():
+            d = __import__("numpy").empty(2, dtype=object)
+            d[0], d[1] = x, y
+            return d
+
+        steps = {
+            "list": lambda: ua([q1, q2], registry=A), "tuple": lambda: ua((q1, q2), registry=A), "list_positional": lambda: ua([q1, q2], None, A),
+            "list_converted": lambda: ua([q1, ctx.quantity(y, base, S)], registry=A),
+            "list_bare_first": lambda: ua([ctx.quantity(x, "dimensionless"), q2] if sym == "dimensionless" else [q1, q2, q1], registry=A),
+            "arr": lambda: ua(arrS, registry=A), "arr_unit": lambda: ua(arrS, U, registry=A), "qty": lambda: uq(q1, registry=A),
+            "qty_from_arr0": lambda: uq(arrS[0], registry=A), "data_unit": lambda: ua(raw(), U, registry=A), "qty_unit": lambda: uq(x, U, registry=A),
+            "data_unit_positional": lambda: ua(raw(), U, A), "unit_unit": lambda: Unit(U, registry=A), "unit_unit_positional": lambda: Unit(U, None, None, None, A),
+            "to_unitA": lambda: q1.to(Unit(lenA, registry=A)), "convert_to_unitA": lambda: arrS.copy().convert_to_units(Unit(lenA, registry=A)),
+            "mul_unitA": lambda: q1 * Unit("s", registry=A), "unitA_mul_unit": lambda: Unit("s", registry=A) * U,
+            "ufunc_mul": lambda: arrA * q1, "ufunc_mul_unit": lambda: arrA * U, "np_multiply": lambda: np_.multiply(arrA, arrS),
+            "add": lambda: arrAl + arrS, "iadd": lambda: arrAl.__iadd__(arrS), "uconcatenate": lambda: unyt.uconcatenate([arrAl, arrS]),
+            "uhstack": lambda: unyt.uhstack([arrAl, arrS]), "setitem": lambda: arrAl.__setitem__(slice(0, 2), [q1, q2]),
+            "ucross": lambda: unyt.ucross(ctx.quantity(ctx.reals("c", (3,)), "s", A), ctx.quantity(ctx.reals("d", (3,)), U), registry=A),
+            "data_unit_bypass": lambda: ua(raw(), U, registry=A, bypass_validation=True),
+            "qty_unit_bypass": lambda: uq(x, U, registry=A, bypass_validation=True),
+        }
+        # arr_unit: unyt keeps the Unit object it is handed next to an unyt_array and ignores registry= there (binding, not isolation: no demand)
+        takes_registry = ("list", "tuple", "list_positional", "list_converted", "list_bare_first", "arr", "qty", "qty_from_arr0", "data_unit",
+                          "qty_unit", "data_unit_positional", "unit_unit", "unit_unit_positional", "data_unit_bypass", "qty_unit_bypass")
+
+        def shared(tag):
+            ctx.require(f"rebind:{tag}/shared-unit-keeps-its-registry", U.registry is S, got=f"{U!r} bound to {'A' if U.registry is A else type(U.registry).__name__}")
+            ctx.require(f"rebind:{tag}/live-objects-keep-unit-and-registry", all(o.units is U or (o.units == U and o.units.registry is S) for o in live))
+            ctx.require(f"rebind:{tag}/shared-unit-keeps-its-definition", conj([eq(U.base_value, bv0), eq(U.base_offset, bo0)]))
+            names_ok = all(getattr(getattr(unyt, n), "units", getattr(unyt, n)).registry is DEF for n in NS_NAMES + ["dimensionless"])
+            ctx.require(f"rebind:{tag}/namespace-units-bound-to-default-registry", names_ok)
+            ns1 = ns_digest(unyt)
+            ctx.require(f"rebind:{tag}/namespace-unchanged", ns1 == ns0, changed=ns_diff(ns0, ns1))
+            ctx.require(f"rebind:{tag}/default-and-B-tables-unchanged", conj([same_table(tabs0[0], dict(DEF.lut)), same_table(tabs0[1], dict(B.lut))]))
+            r = call(lambda: q1.to(base))
+            ctx.require(f"rebind:{tag}/conversion-of-live-quantity", r[0] == "ok" and bool(close(payload(r[1])[0], x * fac)), got=repr(r[1])[:200])
+            r = call(lambda: (ctx.quantity(y, U)).to(base))
+            ctx.require(f"rebind:{tag}/conversion-through-shared-unit", r[0] == "ok" and bool(close(payload(r[1])[0], y * fac)), got=repr(r[1])[:200])
+
+        try:
+            r = call(steps[stepname])  # the new object stays alive across the edit
+            ctx.note(step=stepname, outcome=r[0], result=repr(r[1])[:120])
+            if r[0] == "ok" and stepname in takes_registry:
+                got = r[1].registry if isinstance(r[1], Unit) else r[1].units.registry
+                ctx.require("rebind:step/new-object-bound-to-A", got is A, got=type(got).__name__)
+            shared("step")
+            # registry A now changes what the shared unit's dimension base means
+            row = {"m": "m", "kg": "g", "s": "s", "dimensionless": "K"}[base]
+            A.modify(row, ctx.real("mA", pos=True))
+            A.modify("g" if row == "m" else "m", ctx.real("mA2", pos=True))
+            shared("step+edit-of-A")
+        finally:
+            # a library that rebinds a shared Unit object would carry that into every later case of this worker process
+            for u in [U] + [getattr(getattr(unyt, n), "units", getattr(unyt, n)) for n in NS_NAMES + ["dimensionless"]]:
+                want = S if u is U else DEF
+                if u.registry is not want:
+                    u.registry = want
+
+    c = Case(f"C13/rebind/{stepname}/{carrier}", h, bounds="one call, then an edit of the receiving registry", budget_s=600, max_paths=2000)
+    c.warm_ok = False
+    c.warm_target = False
+    return c
+
 
 def alphabet(config):
     roles = ["A", "B", "C"][:len(config)]
@@ -1139,6 +1261,7 @@ def cases(tier, mods):
         long = config in (REF_LONG + COLLIDE if tier == "quick" else REF + COLLIDE)
         out.append(make_case(config, (), 2 if long else 1))
     out += [make_foreign_case(left) for left in ("default", "defaults", "cgs")]
+    out += [make_rebind_case(st, ca) for st in REBIND_STEPS for ca in REBIND_CARRIERS]
     return out
 
 
